@@ -93,6 +93,10 @@ def step (st : Option PState) (ts : List String) : Option PState × String :=
       | some p1 => (some p1, showVal (some (value p1)))
       | none => (none, "fault")
     | none => (none, "fault")
+  | ["nest", n, a, m, b] => match n.toNat?, unhex a, unhex m, unhex b with
+    | some n, some a, some m, some b =>
+      (st, showVal (decode ((List.replicate n a).flatten ++ m ++ (List.replicate n b).flatten)))
+    | _, _, _, _ => (st, "bad-op")
   | ["reset"] => (some init, "ok")
   | ["states", h] => match unhex h with
     | some d => (st, statesOf d) | none => (st, "bad-op")
